@@ -29,7 +29,7 @@ def main():
             if rc:
                 print(json.dumps({"name": name, "error": o[-200:]})); continue
             shutil.rmtree(lean, ignore_errors=True)
-            sh(["rsync", "-a", os.path.join(VERIF, "lean") + "/", lean + "/"])
+            sh(["rsync", "-a", os.environ.get("LE_LEAN_SRC", os.path.join(VERIF, "lean")) + "/", lean + "/"])
             code = ("import sys; sys.path.insert(0, %r); from harness import py2lean; ch = py2lean.regenerate(); "
                     "import json; print(json.dumps({'changed': ch, 'unavailable': py2lean.UNAVAILABLE}))" % VERIF)
             before = {f: open(os.path.join(lean, "P0f/Generated/Logic", f)).read() for f in os.listdir(os.path.join(lean, "P0f/Generated/Logic"))}
